@@ -1,4 +1,4 @@
-SPECIFICATION Spec
+SPECIFICATION TSpec
 CONSTANTS
   TAL_DEFINE = 1
   TAL_CONDITION = 2
@@ -17,16 +17,6 @@ CONSTANTS
   METAL_FILL_SLOT = 16
   METAL_DEFINE_MACRO = 17
   VoidTags = {"area", "base", "basefont", "br", "col", "frame", "hr", "img", "input", "isindex", "link", "meta", "param"}
-  Families = {"one"}
-  CtxIds = {"A"}
-  EscLen = 2
-  MaxSteps = 400
-  KnownRepeatOverMapping = TRUE
-INVARIANT WellFormed
-INVARIANT Terminates
-INVARIANT Completes
-INVARIANT Refines
-INVARIANT ContextRestored
-INVARIANT PythonGated
-POSTCONDITION WriteCases
+CONSTRAINT Record
+POSTCONDITION Post
 CHECK_DEADLOCK FALSE
